@@ -167,6 +167,13 @@ func (ex *Exec) lookupStub(fn *ssa.Function, name string) (StubFn, bool) {
 	if s, ok := ex.stubs[name]; ok {
 		return s, true
 	}
+	// (*CompGlobals).TypeOf<BasicKind>() : the universe's basic type objects
+	const tof = "(*github.com/cosmos72/gomacro/fast.CompGlobals).TypeOf"
+	if strings.HasPrefix(name, tof) {
+		if t := basicTypeByName(strings.ToLower(name[len(tof):])); t != nil {
+			return func(c *CallCtx) { c.Return(XType{T: t}) }, true
+		}
+	}
 	// generic instantiations: strip type arguments  pkg.f[int8] -> pkg.f
 	if i := strings.IndexByte(name, '['); i > 0 && strings.HasSuffix(name, "]") {
 		if s, ok := ex.stubs[name[:i]]; ok {
